@@ -276,11 +276,6 @@ class Gen:
             txt = str(v)
         elif kind == 'fmt':
             txt = fmt_addr(self.afmt, self.base, v)
-            if txt[0].isupper():
-                # ('#R52000#CB20': the unconverted anchor comes back as '...html#CB20' and is scanned again, skool2html
-                # stops with "Found unknown macro: #CB" on the unchanged tree - no file is written, not a C16 clause,
-                # reported separately, not generated)
-                kind = None
         elif kind == 'custom':
             txt = ent['custom']
         if kind:
